@@ -107,7 +107,7 @@ func (g *gen) genFuncFor(typ *types.Slice) error {
 	p.In()
 	p.P("for _, v := range list {")
 	p.In()
-	if canEqual(etyp) {
+	if canEqual(etyp) && !derive.HasEqualMethod(etyp) {
 		p.P("if v == item {")
 	} else {
 		p.P("if %s(v, item) {", g.equal.GetFuncName(etyp, etyp))
